@@ -106,6 +106,10 @@ func (d *motionDetector) calculateThreshold(backAverage float64) {
 	if d.tempThreshMax != 0 {
 		d.tempThresh = uint16(math.Min(backAverage, float64(d.tempThreshMax)))
 	}
+	if d.tempThreshMin != 0 && d.tempThresh < d.tempThreshMin {
+		// applying the upper bound must not undo the lower bound
+		d.tempThresh = d.tempThreshMin
+	}
 }
 
 func (d *motionDetector) Detect(frame *cptvframe.Frame) bool {
